@@ -250,6 +250,8 @@ Qed.
 
 Lemma cert_in_folders : forall c h, in_folders c h (cert_path c) = true.
 Proof. intros. eapply folderish_in; [left; reflexivity|]. apply (is_prefix_app (ns_dir c) ["jmc.txt"]). Qed.
+Lemma cert_tmp_in_folders : forall c h, in_folders c h (cert_tmp c) = true.
+Proof. intros. eapply folderish_in; [left; reflexivity|]. apply (is_prefix_app (ns_dir c) ["jmc.txt.tmp"]). Qed.
 Lemma tags_in_folders : forall c h, in_folders c h (tags_dir c) = true.
 Proof. intros. eapply folderish_in; [right; right; reflexivity|]. apply (is_prefix_app mc_dir ["tags"; c_ff c]). Qed.
 Lemma load_in_folders : forall c h, in_folders c h (load_path c) = true.
@@ -259,7 +261,7 @@ Proof. intros. eapply folderish_in; [right; right; reflexivity|]. apply (is_pref
 
 (* ------------------------------------------------------------------ the shape of every mutation of a run *)
 Definition folder_files (c : cfg) (h : hdr) (out : outcome) : list path :=
-  cert_path c :: load_path c :: tick_path c ::
+  cert_path c :: cert_tmp c :: load_path c :: tick_path c ::
   match out with Success o => map fst (out_files c h o) | _ => [] end.
 
 Definition shape_ok (v : variant) (c : cfg) (h : hdr) (out : outcome) (o : op) : Prop :=
@@ -270,17 +272,26 @@ Definition shape_ok (v : variant) (c : cfg) (h : hdr) (out : outcome) (o : op) :
   \/ In (op_path o) (copy_paths h)
   \/ (op_path o = meta_path /\ is_mkdir o = false).
 
-Lemma make_cert_shape : forall v c h out cur o, In o (make_cert c cur) -> shape_ok v c h out o.
+Lemma make_cert_shape : forall v a c h out cur o, In o (make_cert a c cur) -> shape_ok v c h out o.
 Proof.
-  intros v c h out cur o H. unfold make_cert in H. apply write_file_shape in H as (H1 & H2 & H3); [|discriminate].
-  right. left. exists (cert_path c). simpl. auto.
+  intros v a c h out cur o H. unfold make_cert in H. apply in_app_or in H as [H|H].
+  - apply mkdir_p_shape in H as (H1 & H2 & H3). right. left. exists (cert_path c). simpl. repeat split; auto.
+    eapply is_prefix_trans; eauto. apply (is_prefix_app (ns_dir c) ["jmc.txt"]).
+  - unfold cert_tail, rename_ops in H. destruct a; simpl in H.
+    + destruct H as [<-|[<-|[<-|[<-|[]]]]]; right; left.
+      * exists (cert_tmp c). simpl. repeat split; auto; try discriminate. apply (is_prefix_refl (cert_tmp c)).
+      * exists (cert_tmp c). simpl. repeat split; auto; try discriminate. apply (is_prefix_refl (cert_tmp c)).
+      * exists (cert_path c). simpl. repeat split; auto; try discriminate. apply (is_prefix_refl (cert_path c)).
+      * exists (cert_tmp c). simpl. repeat split; auto; try discriminate. apply (is_prefix_refl (cert_tmp c)).
+    + destruct H as [<-|[<-|[]]]; right; left; exists (cert_path c); simpl; repeat split; auto; try discriminate;
+        apply (is_prefix_refl (cert_path c)).
 Qed.
 
-Lemma write_phase_shape : forall v c h o cur x,
-  In x (fst (write_phase c h o cur)) -> shape_ok v c h (Success o) x.
+Lemma write_phase_shape : forall v c h o tags cur x,
+  In x (fst (write_phase v c h o tags cur)) -> shape_ok v c h (Success o) x.
 Proof.
-  intros v c h o cur x H. unfold write_phase in H.
-  set (ops1 := make_cert c cur) in *. set (cur1 := run_ops ops1 cur) in *.
+  intros v c h o tags cur x H. unfold write_phase in H.
+  set (ops1 := make_cert (v_cert_atomic v) c cur) in *. set (cur1 := run_ops ops1 cur) in *.
   set (ops2 := copy_phase h cur1) in *. set (cur2 := run_ops ops2 cur1) in *.
   set (ops3 := mkdir_p cur2 (tags_dir c)) in *. set (cur3 := run_ops ops3 cur2) in *.
   assert (H123 : In x (ops1 ++ ops2 ++ ops3) -> shape_ok v c h (Success o) x).
@@ -290,7 +301,10 @@ Proof.
       destruct (h_copy h) as [items|]; [|contradiction]. eapply copy_items_shape; eauto.
     - apply mkdir_p_shape in Hx as (M1 & M2 & M3). right. left. exists (load_path c). simpl.
       repeat split; auto. eapply is_prefix_trans; eauto. apply (is_prefix_app (tags_dir c) ["load.json"]). }
-  destruct (read_tag c cur3 (load_path c)) as [lv|]; [destruct (read_tag c cur3 (tick_path c)) as [tv|]|]; cbn [fst] in H; auto.
+  destruct (match tags with
+            | Some (lv, tv) => (Some lv, Some tv)
+            | None => (read_tag c cur3 (load_path c), read_tag c cur3 (tick_path c))
+            end) as [[lv|] [tv|]]; cbn [fst] in H; auto.
   rewrite !app_assoc in H. apply in_app_or in H as [H|H].
   - apply in_app_or in H as [H|H].
     + apply in_app_or in H as [H|H]; [rewrite <- !app_assoc in H; auto|].
@@ -308,16 +322,16 @@ Proof.
       apply write_files_shape in H as (p & s & cur' & Hin & Ho).
       destruct (out_files_in _ _ _ _ _ Hin) as [_ Hne].
       apply write_file_shape in Ho as (W1 & W2 & W3); auto.
-      right. left. exists p. repeat split; auto. simpl. right. right. right.
+      right. left. exists p. repeat split; auto. simpl. right. right. right. right.
       apply in_map_iff. exists (p, s). auto.
   - unfold meta_ops in H. destruct (h_nometa h); [contradiction|].
     right. right. right. destruct H as [<-|[<-|[]]]; simpl; auto.
 Qed.
 
-Lemma build_shape : forall v c h o isd fault cur x,
-  In x (fst (build v c h o isd fault cur)) -> shape_ok v c h (Success o) x.
+Lemma build_with_shape : forall v c h o tags isd fault cur x,
+  In x (fst (build_with v c h o tags isd fault cur)) -> shape_ok v c h (Success o) x.
 Proof.
-  intros v c h o isd fault cur x H. unfold build in H.
+  intros v c h o tags isd fault cur x H. unfold build_with in H.
   set (dops := if isd then del_phase h cur (del_list v c h) else []) in *.
   assert (Hd : In x dops -> shape_ok v c h (Success o) x).
   { intro Hx. unfold dops in Hx. destruct isd; [|contradiction].
@@ -326,10 +340,19 @@ Proof.
   destruct fault as [P|].
   - destruct (cut P dops) as [pre hit] eqn:Ec. destruct hit; simpl in H.
     + apply Hd. apply (cut_in P). rewrite Ec. exact H.
-    + destruct (write_phase c h o (run_ops dops cur)) as [w r] eqn:Ew. simpl in H.
+    + destruct (write_phase v c h o tags (run_ops dops cur)) as [w r] eqn:Ew. simpl in H.
       apply in_app_or in H as [H|H]; auto. eapply write_phase_shape. rewrite Ew. exact H.
-  - destruct (write_phase c h o (run_ops dops cur)) as [w r] eqn:Ew. simpl in H.
+  - destruct (write_phase v c h o tags (run_ops dops cur)) as [w r] eqn:Ew. simpl in H.
     apply in_app_or in H as [H|H]; auto. eapply write_phase_shape. rewrite Ew. exact H.
+Qed.
+
+Lemma build_shape : forall v c h o isd fault cur x,
+  In x (fst (build v c h o isd fault cur)) -> shape_ok v c h (Success o) x.
+Proof.
+  intros v c h o isd fault cur x H. unfold build in H. destruct (v_tags_early v).
+  - destruct (early_tag c h isd cur (load_path c)) as [lv|]; [destruct (early_tag c h isd cur (tick_path c)) as [tv|]|];
+      try contradiction. eapply build_with_shape; eauto.
+  - eapply build_with_shape; eauto.
 Qed.
 
 Lemma shape_ok_outcome : forall v c h out o x,
@@ -355,7 +378,7 @@ Proof.
     simpl in H. destruct (v_cert_early v); [|contradiction]. eapply make_cert_shape; eauto.
   - destruct (is_dir cur (ns_dir c)).
     + destruct (is_file cur (cert_path c)); [|contradiction]. eapply build_shape; eauto.
-    + set (ops0 := if v_cert_early v then make_cert c cur else []) in *.
+    + set (ops0 := if v_cert_early v then make_cert (v_cert_atomic v) c cur else []) in *.
       destruct (build v c h o false fault (run_ops ops0 cur)) as [ops r] eqn:Eb. simpl in H.
       apply in_app_or in H as [H|H].
       * unfold ops0 in H. destruct (v_cert_early v); [|contradiction]. eapply make_cert_shape; eauto.
